@@ -23,7 +23,12 @@ func PodsFilter(sources ...*corev1.ReplicationController) filter.ComparableFilte
 	filters := make([]filter.Filter, 0, len(srcs))
 
 	for _, svc := range srcs {
-		filters = append(filters, filter.Labels(svc.Spec.Selector))
+		selector := svc.Spec.Selector
+		if len(selector) == 0 && svc.Spec.Template != nil {
+			// no selector: the controller selects the pods it stamps out (the API server defaults it the same way)
+			selector = svc.Spec.Template.Labels
+		}
+		filters = append(filters, filter.Labels(selector))
 	}
 
 	return filter.Or(filters...)
